@@ -4,6 +4,7 @@ import (
 	"bytes"
 	"fmt"
 	"math/bits"
+	"runtime/debug"
 
 	"nhooyr.io/websocket"
 )
@@ -56,6 +57,9 @@ func runMaskCase(c maskCase) (got []byte, gotKey uint32, in []byte, fail string)
 	f := implMask(c.Impl)
 	key := c.Key
 	func() {
+		// an invalid memory access (e.g. an aligned vector move on an unaligned address) must show up as this
+		// case's failure, not kill the process
+		defer debug.SetPanicOnFault(debug.SetPanicOnFault(true))
 		defer func() {
 			if r := recover(); r != nil {
 				fail = fmt.Sprintf("panic: %v", r)
